@@ -172,10 +172,15 @@ def run(ctx):
     cfg = CFG(meta.node)
     rets = [n for n in cfg.stmt_nodes() if n.kind == "stmt" and isinstance(n.ast, ast.Return)]
 
+    # locals that hold an encoding's name (`name = newEncoding.name`)
+    name_aliases = {a.targets[0].id for fq in ("HTMLBinaryInputStream.detectEncodingMeta", "HTMLBinaryInputStream.changeEncoding")
+                    for a in ast.walk(repo.func(REL, fq).node) if isinstance(a, ast.Assign) and len(a.targets) == 1 and
+                    isinstance(a.targets[0], ast.Name) and isinstance(a.value, ast.Attribute) and a.value.attr == "name"}
+
     def utf16_test(n):
         # `x.name in ("utf-16be", "utf-16le")`, or one disjunct of the equivalent chain of equalities
         t = norm(n.ast) if n.kind == "test" else ""
-        return ("utf-16be" in t or "utf-16le" in t) and ".name" in t
+        return ("utf-16be" in t or "utf-16le" in t) and (".name" in t or any(isinstance(x, ast.Name) and x.id in name_aliases for x in ast.walk(n.ast)))
     def maps_utf8(n):
         return n.kind == "stmt" and isinstance(n.ast, ast.Assign) and norm(n.ast.value) == "lookupEncoding('utf-8')"
     tests = [n for n in cfg.nodes if utf16_test(n)]
@@ -376,7 +381,10 @@ def user_defined_mapping(ctx):
                       ("HTMLBinaryInputStream.changeEncoding", "late-x-user-defined")):
         f = ctx.repo.func(REL, qual)
         cfg = CFG(f.node)
-        tests = [n for n in cfg.nodes if n.kind == "test" and "x-user-defined" in norm(n.ast) and ".name" in norm(n.ast)]
+        nal = {a.targets[0].id for a in ast.walk(f.node) if isinstance(a, ast.Assign) and len(a.targets) == 1 and isinstance(a.targets[0], ast.Name)
+               and isinstance(a.value, ast.Attribute) and a.value.attr == "name"}
+        tests = [n for n in cfg.nodes if n.kind == "test" and "x-user-defined" in norm(n.ast) and
+                 (".name" in norm(n.ast) or any(isinstance(x, ast.Name) and x.id in nal for x in ast.walk(n.ast)))]
         mapped = [t for t in tests if any(lab is True and m.kind == "stmt" and isinstance(m.ast, ast.Assign) and
                                           norm(m.ast.value) in ("lookupEncoding('windows-1252')", "lookupEncoding('cp1252')")
                                           for m, lab in t.succ)]
@@ -685,7 +693,10 @@ def bom_read_and_seek(ctx, rid_seek="C06.12", rid_read="C06.13"):
     r.rule(rid_seek, "the seek after a BOM match is the length of the BOM that matched", floor=1)
     r.rule(rid_read, "BOM sniffing completes a short first read", floor=1)
     seeks = [c for c in ast.walk(f.node) if isinstance(c, ast.Call) and norm(c.func).endswith("rawStream.seek") and c.args and norm(c.args[0]) != "0"]
-    if len(seeks) != 1 or not isinstance(seeks[0].args[0], ast.Name):
+    if len(seeks) == 1 and isinstance(seeks[0].args[0], ast.Call) and norm(seeks[0].args[0].func) == "len":
+        # `self.rawStream.seek(len(bom))` at the place of the match
+        r.ok(rid_seek, "bom-seek-length", "%s:%d" % (REL, seeks[0].lineno), detail={"offset": norm(seeks[0].args[0])})
+    elif len(seeks) != 1 or not isinstance(seeks[0].args[0], ast.Name):
         r.idiom(rid_seek, False, "bom-seek-length", f.where, "detectBOM: the seek behind the BOM was not found")
     else:
         var = seeks[0].args[0].id
@@ -947,7 +958,8 @@ def meta_rules(ctx):
                         % (norm(t) if t is not None else ""))],
                 detail={"test": norm(t) if t is not None else None})
     # (c)
-    h = repo.func(REL, "ContentAttrParser.parse")
+    from ..repo import inline_self_aliases
+    h = inline_self_aliases(repo.func(REL, "ContentAttrParser.parse"))
     cfg = CFG(h.node)
     eq_tests = [x for x in cfg.stmt_nodes() if x.kind == "test" and "b'='" in norm(x.ast)]
     q_tests = [x for x in cfg.stmt_nodes() if x.kind == "test" and "currentByte" in norm(x.ast) and
@@ -970,7 +982,8 @@ def content_charset_grammar(ctx):
     r = ctx.r
     ce = ctx.ce
     r.rule("C06.14", "content= charset extraction: unquoted value ends at white space or ';'; the search loops to the next `charset`", floor=2)
-    h = ctx.repo.func(REL, "ContentAttrParser.parse")
+    from ..repo import inline_self_aliases
+    h = inline_self_aliases(ctx.repo.func(REL, "ContentAttrParser.parse"))
     sk = [c for c in ast.walk(h.node) if isinstance(c, ast.Call) and norm(c.func).endswith("skipUntil") and c.args]
     if len(sk) != 1:
         r.idiom("C06.14", False, "unquoted-value-terminators", h.where, "ContentAttrParser.parse: the unquoted-value scan was not found")
@@ -1023,6 +1036,8 @@ def prescan_tag_rules(ctx):
                         out.env[norm(st.targets[0])] = None
                         return False
                     if isinstance(st, ast.While) and "getAttribute" in norm(st):
+                        if "getAttribute()" in norm(st.test):
+                            got.append(st)          # `while self.getAttribute() is not None: pass`
                         return False
                     if isinstance(st, ast.Assign) and norm(st.value) in ("self.data",):
                         out.env[norm(st.targets[0])] = Opaque("data")
